@@ -1,3 +1,4 @@
+//go:debug cryptocustomrand=1
 package c12
 
 import (
@@ -16,6 +17,8 @@ import (
 //
 //	new
 //	mkd|mki ...     build with a REAL shipped signer (recorded: announced SigInfo, bytes handed, value)
+//	fmk <make op>   run a make op with a failing entropy source (crypto/rand.Reader errors) on the history's
+//	                signer instance; the packets built afterwards must be unaffected
 //	hold / valheld  remember the packet just built (in the buffers it was returned in); after the NEXT packet
 //	                was built with the same signer instance, decode and validate the remembered one
 //	val             decode the untampered bytes, compare the parser's signed portion with what the
@@ -47,9 +50,9 @@ func gen(g *common.Gen) {
 		{
 			for {
 				if i%2 == 0 {
-					mk = c03.GenMkd(r, sh, g, common.Pick(r, dataSigners))
+					mk = c03.GenMkd(r, sh, g, c03.WithKeyName(r, g, common.Pick(r, dataSigners)))
 				} else {
-					mk = c03.GenMki(r, sh, g, common.Pick(r, intSigners))
+					mk = c03.GenMki(r, sh, g, c03.WithKeyName(r, g, common.Pick(r, intSigners)))
 					// the usual shape of a signed Interest: EMPTY ApplicationParameters
 					if r.Chance(1, 3) {
 						f := strings.Fields(mk)
@@ -82,6 +85,16 @@ func gen(g *common.Gen) {
 			g.Op("%s", first)
 			g.Op("hold")
 			g.Stat("hold")
+		}
+		// a signing attempt that fails (no entropy) on the same signer instance, then the real packet
+		if r.Chance(1, 3) {
+			tok := strings.Fields(mk)
+			failed := c03.GenMkd(r, c03.Shape{}, g, tok[len(tok)-1])
+			if tok[0] == "mki" {
+				failed = c03.GenMki(r, c03.Shape{}, g, tok[len(tok)-1])
+			}
+			g.Op("fmk %s", failed)
+			g.Stat("fmk")
 		}
 		g.Op("%s", mk)
 		if holdFirst {
@@ -187,6 +200,24 @@ func exec(op string) string {
 			return "skip"
 		}
 		return lastMkOut
+	case "fmk":
+		// a make op whose signing runs with a FAILING entropy source (crypto/rand.Reader returns an
+		// error): the attempt is reported to the caller as an error; what matters is that the signer
+		// instance is used again afterwards
+		var out string
+		func() {
+			c03.FailEntropy = true
+			defer func() { c03.FailEntropy = false }()
+			out = common.Guard(func() string {
+				if f[1] == "mkd" {
+					o, _ := c03.MakeData(f[1:])
+					return o
+				}
+				o, _ := c03.MakeInterest(f[1:])
+				return o
+			})
+		}()
+		return strings.SplitN(out, " ", 2)[0]
 	case "hold":
 		if last == nil {
 			return "skip"
